@@ -11,7 +11,7 @@ VERUS_UNITS = {
     'U-MP': dict(module='contracts.verus.msgpack_size', min_verified=37, timeout=600,
                  native_search=dict(src='src/msgpack.rs', file='msgpack_search.rs'),
                  props=['C18', 'C04', 'C02', 'C03', 'C06', 'C01']),
-    'U-CHK-V': dict(module='contracts.verus.yaml_chunker', min_verified=24, timeout=600,
+    'U-CHK-V': dict(module='contracts.verus.yaml_chunker', min_verified=25, timeout=600,
                     native_search=dict(src='src/yaml/chunker.rs', file='chunker_search.rs'),
                     props=['C03', 'C05', 'C04', 'C02', 'C12', 'C07', 'C10', 'C09', 'C01', 'C06']),
     'U-ENC-V': dict(module='contracts.verus.yaml_encoding', min_verified=15, timeout=600,
@@ -25,7 +25,7 @@ VERUS_UNITS = {
     'U-JSN-V': dict(module='contracts.verus.json_transcode', min_verified=3, timeout=600,
                     props=['C03', 'C04', 'C05', 'C02', 'C12', 'C01', 'C06']),
     'U-TML-V': dict(module='contracts.verus.toml_output', min_verified=10, timeout=600,
-                    props=['C08', 'C12', 'C11', 'C10', 'C09', 'C02', 'C15']),
+                    props=['C08', 'C12', 'C11', 'C10', 'C09', 'C02', 'C15', 'C05']),
     'U-LIB-V': dict(module='contracts.verus.lib_translate', min_verified=11, timeout=600,
                     props=['C09', 'C03', 'C12', 'C15', 'C14', 'C02']),
     'U-MAIN-V': dict(module='contracts.verus.cli_main', min_verified=13, timeout=600,
@@ -181,6 +181,9 @@ HARNESSES = [
     H('U-PRS', 'parser', 'parser_new_configures_libyaml', 'complete', ['C04', 'C03', 'C17'], bounds='one construction (the function has no input besides the reader, which it only stores)',
       fns=['yaml::chunker::parser::Parser::new'], timeout=900,
       assumes=['yaml_parser_set_encoding / yaml_parser_set_input replaced by recording probes; yaml_parser_initialize is the real unsafe-libyaml function']),
+    H('U-PRS', 'parser', 'parser_drop_frees_every_block', 'complete', ['C17', 'C05'], bounds='one parser (the drop glue has no input)',
+      fns=['yaml::chunker::parser::Parser::drop'], timeout=300, kani_args=['--cbmc-args', '--memory-leak-check'],
+      assumes=['yaml_parser_delete replaced by a recording probe (libyaml frees its own buffers)']),
     H('U-PRS', 'parser', 'read_handler_null_arguments', 'complete', ['C17'], bounds='each of the three pointer arguments null',
       fns=['yaml::chunker::parser::Parser::read_handler'], timeout=300),
     H('U-PRS', 'parser', 'event_drop_releases_every_event_type', 'complete', ['C17', 'C05'], bounds='all 11 libyaml event types',
@@ -402,7 +405,7 @@ PROPERTIES = {
                     'independent bit-level definition of UTF-8, and the stream theorem: any schedule of read() calls hands out exactly utf8(text without one leading BOM).',
         assumptions=['libyaml / serde_yaml treat the re-encoded bytes like native UTF-8 input (they receive identical bytes)', 'decoder byte positions < 2^64-16',
                      'char::encode_utf8 == utf8_bytes (assumed spec; RFC 3629 table) and vstd\'s prophetic Iterator model in U-ENC-V'],
-        not_covered=['Encoder::from_reader peek-and-chain (io::copy under CBMC)', 'that yaml::input_matches hands Encoder::new the encoding detected from the first DETECT_LEN bytes (extracted verbatim in U-CHK-V, but no obligation on that argument)']),
+        not_covered=['Encoder::from_reader peek-and-chain (io::copy under CBMC)', 'that yaml::input_matches hands Encoder::new the encoding it detected (extracted verbatim in U-CHK-V; the look-ahead length IS under contract: prefix(n) requires n >= DETECT_LEN, and DETECT_LEN >= 4)']),
     'C08': dict(
         explanation='Verus U-TML-V on the verbatim src/toml.rs, for ANY history of calls: ensure_one_use / output_value / transcode_from / transcode_value / flush against the view (used, write_all log, other writes): a used output writes nothing and fails; an unused one sets the mark and hands the writer at most one buffer, exactly the text to_string_pretty returned for the root table (exactly one on Ok), never through `write`; non-table roots fail with NonTableRoot and no write; THEOREM lemma_at_most_one_document: along any sequence of such calls from new(w) the writer has received nothing or exactly one complete document. toml::input_matches: 2 MiB cutoff, non-UTF-8 => Ok(false), reader error => Err. Kani, real code against the real std within bounds: TOML output state machine, view = (used, writer calls): ensure_one_use; second use refused from any history before the deserializer is touched and with zero writer calls; '
                     'non-table roots (every variant, any payload) refused with zero writes; the use mark is set before deserialization; table root => exactly one write_all of exactly the '
